@@ -3,12 +3,17 @@ From Bfe Require Import lib.Val lib.Bytes model.ProxyProto.
 Import ListNotations.
 Open Scope Z_scope.
 
-(* input: [limit [chunk ...] ora_src ora_dst] ; output: [src dst data err closed] (see model/ProxyProto.v conn_run) *)
-Definition dec_C46 (i : val) : option (Z * list bytes * bytes * bytes) :=
+(* input: [limit [chunk ...] ora_src ora_dst tmo] (tmo optional, 0 = stream ends with EOF, 1 = silent peer) ; output: [src dst data err closed] (see model/ProxyProto.v conn_run) *)
+Definition dec_C46 (i : val) : option (bool * Z * list bytes * bytes * bytes) :=
   match i with
   | VL [VZ limit; cs; VB os; VB od] =>
     match as_LB cs with
-    | Some chunks => Some (limit, chunks, os, od)
+    | Some chunks => Some (false, limit, chunks, os, od)
+    | None => None
+    end
+  | VL [VZ limit; cs; VB os; VB od; VZ tmo] =>
+    match as_LB cs with
+    | Some chunks => Some (negb (tmo =? 0), limit, chunks, os, od)
     | None => None
     end
   | _ => None
@@ -16,7 +21,7 @@ Definition dec_C46 (i : val) : option (Z * list bytes * bytes * bytes) :=
 
 Definition run_C46 (i : val) : val :=
   match dec_C46 i with
-  | Some (limit, chunks, os, od) => conn_run limit chunks os od
+  | Some (tmo, limit, chunks, os, od) => conn_run tmo limit chunks os od
   | None => VErr 0
   end.
 
@@ -30,7 +35,7 @@ Definition agree_C46 (i o : val) : bool := bad_input o || val_eqb (run_C46 i) o.
 Definition prop_C46 (i o : val) : bool :=
   bad_input o ||
   match dec_C46 i with
-  | Some (limit, chunks, os, od) =>
+  | Some (_, limit, chunks, os, od) =>
     let s := concat chunks in
     match spec_classify limit os od s with
     | SHeader None rest => val_eqb o (VL [VL []; VL []; VB rest; VZ 0; VZ 0])
@@ -49,7 +54,7 @@ Definition prop_C46 (i o : val) : bool :=
 
 Definition kf_C46 (i : val) : Z :=
   match dec_C46 i with
-  | Some (limit, chunks, os, od) =>
+  | Some (_, limit, chunks, os, od) =>
     let s := concat chunks in
     match spec_classify limit os od s with
     | SNoHeader => if short_sig_first limit s then 1 else 0
